@@ -25,5 +25,8 @@ MCPoolDigit == << Sp(<<50, 65>>, "G", 0, FALSE, 0, <<H>>),
 MCPoolSmall == << MCPool[1], MCPool[2], MCPool[3], MCPool[5], MCPool[6] >>
 \* species delimiters "+" and " + ";  reaction delimiters "=", "<=>", "=>", " = "
 MCSDelims == {<<43>>, <<32, 43, 32>>}
+\* run lists: every sequence of 1..3 runs over 2 temperatures x 2 pressures (84 lists)
+TP == (1..2) \X (1..2)
+MCRunLists == {<<a>> : a \in TP} \cup {<<a, b>> : a, b \in TP} \cup {<<a, b, c>> : a, b, c \in TP}
 MCRDelims == {<<61>>, <<60, 61, 62>>, <<61, 62>>, <<32, 61, 32>>}
 =============================================================================
